@@ -31,7 +31,8 @@ structure Obs where
   fe    : Option Nat
   runs  : Nat             -- how often this call's own function was executed
   stuck : Bool            -- the call did not return while only calls on other keys were being held
-  panicked : Bool := false  -- the call panicked (no scripted function panics)
+  panicked : Bool := false  -- the call panicked
+  spanic : Bool := false    -- scripted: the function panics (outside the property's quantifier; see Props.lean)
   deriving Repr
 
 def Obs.ran (o : Obs) : Bool := o.runs > 0
@@ -56,7 +57,10 @@ def callsOverlap (l r : Obs) : Bool := l.inv < r.ret && r.inv < l.ret
 /-- SingleFlight: whose result did `r` get, and was it allowed to get it. -/
 def noStaleViolation (h : List Obs) (r : Obs) : Option String :=
   match r.val with
-  | none => some s!"no-stale: call {r.id} (key {r.key}) got a value that no execution produced"
+  | none =>
+    -- the zero values: only as joiner of a flight whose function panicked (what the code does; `sf_panic_joiners_zero`)
+    if !r.ran && r.err.isNone && h.any (fun l => l.key = r.key && l.ran && l.spanic && l.id ≠ r.id && callsOverlap l r) then none
+    else some s!"no-stale: call {r.id} (key {r.key}) got a value that no execution produced"
   | some v =>
     match h.find? (·.id = v) with
     | none => some s!"no-stale: call {r.id} (key {r.key}) got a value of unknown execution {v}"
@@ -85,13 +89,15 @@ def stuckViolation (r : Obs) : Option String :=
   if r.stuck then some s!"stuck: call {r.id} on key {r.key} did not finish although nothing it may wait for was running (keys-independent / lost wake-up)"
   else none
 
+/-- a call may panic only with its own function's (scripted) panic. -/
 def panicViolation (r : Obs) : Option String :=
-  if r.panicked then some s!"panic: call {r.id} on key {r.key} panicked although no user function panics" else none
+  if r.panicked && !(r.ran && r.spanic) then
+    some s!"panic: call {r.id} on key {r.key} panicked although its own function did not" else none
 
 def sfViolations (h : List Obs) : List (Nat × String) :=
   exclusiveViolations h
-  ++ h.filterMap (fun r => (noStaleViolation h r).map (r.line, ·))
-  ++ h.filterMap (fun r => (freshViolation r).map (r.line, ·))
+  ++ h.filterMap (fun r => if r.panicked then none else (noStaleViolation h r).map (r.line, ·))
+  ++ h.filterMap (fun r => if r.panicked then none else (freshViolation r).map (r.line, ·))
   ++ h.filterMap (fun r => if r.runs > 1 then some (r.line, s!"exclusive: function of call {r.id} executed {r.runs} times") else none)
   ++ h.filterMap (fun r => (stuckViolation r).map (r.line, ·))
   ++ h.filterMap (fun r => (panicViolation r).map (r.line, ·))
@@ -99,6 +105,7 @@ def sfViolations (h : List Obs) : List (Nat × String) :=
 /-- LockedCalls: own function exactly once, own result. -/
 def ownFnViolation (r : Obs) : Option String :=
   if r.runs ≠ 1 then some s!"own-fn-once: function of call {r.id} (key {r.key}) executed {r.runs} times"
+  else if r.panicked then none    -- the caller's own function panicked (see `panicViolation`): nothing is returned
   else if r.val ≠ some r.id then some s!"own-fn-once: call {r.id} returned the value of {r.val}"
   else if r.err ≠ (if r.serr then some r.id else none) then some s!"own-fn-once: call {r.id} returned the error of {r.err}"
   else none
